@@ -139,7 +139,7 @@ PROPS = {
                       'every real handshake from the parsed view with an independent transcription of the property.',
     },
     'C16': {
-        'modules': ['C16', 'TieHs', 'TieVerify', 'C16Gen'],
+        'modules': ['C16', 'TieHs', 'TieVerify', 'C16Gen', 'TieCStage'],
         'families': [('corpus:hs', 0, 0), ('hs:cuts', 1, 1), ('hs:client', 2500, 60000)],
         'rule': 'target URIs (userinfo with and without @ in the password, IPv6, ports, no path, wrong scheme, relative), extra headers, subprotocol '
                 'lists, hand-made requests with missing / duplicated required headers; responses with every element missing or altered, accept value '
